@@ -1,6 +1,7 @@
 import AITB.Model.Proto
 import AITB.Model.Belief
 import AITB.Gen.Constants
+import AITB.Gen.BeliefSrc
 open AITB AITB.Belief
 
 /-!
@@ -256,6 +257,65 @@ def hist : P String := do
   let v := go 1 b0 (steps.zip outs) v
   return v.render
 
+/-- `inplace fn rep exact S O o | T_a | Ob_a | in | out | inplace` : a pointer overload called with `bRet == &in`.
+    The property clause: the in-place call returns what the out-of-place call returns (`in_place_differs`).
+    The model of the in-place call depends on whether the source carries the alias guard (`Gen.BeliefSrc.aliasGuard_*`). -/
+def inplace : P String := do
+  let fn ← P.tok; let rep ← P.tok; let exact ← P.bool; let S ← P.nat; let O ← P.nat; let o ← P.nat; P.bar
+  let T ← qsN (S * S); P.bar
+  let Ob ← qsN (S * O); P.bar
+  let inA ← qsN S; P.bar
+  let outX ← xsN S; P.bar
+  let inplX ← xsN S
+  P.eof
+  let m : POMDP := { S := S, A := 1, O := O,
+                     T := fun s _ s1 => T.getD (s * S + s1) 0,
+                     Ob := fun s1 _ o => Ob.getD (s1 * O + o) 0,
+                     R := fun _ _ _ => 0 }
+  let mm := storedModel rep m
+  let b := arrVec inA
+  let libfn := if fn == "unnorm" then "updateBeliefUnnormalized" else if fn == "update" then "updateBelief"
+    else if fn == "partial" then "updateBeliefPartial" else if fn == "punnorm" then "updateBeliefPartialUnnormalized"
+    else "updateBeliefPartialNormalized"
+  let comp := libfn ++ "/" ++ rep
+  let guardU := AITB.Gen.BeliefSrc.aliasGuard_updateBeliefUnnormalizedPtr
+  let guardP := AITB.Gen.BeliefSrc.aliasGuard_updateBeliefPartialPtr
+  let guardPU := AITB.Gen.BeliefSrc.aliasGuard_updateBeliefPartialUnnormalizedPtr
+  let toX (v : Vec) : Array XRat := ((List.range S).map (fun s => XRat.fin (v s))).toArray
+  let normX (v : Vec) : Array XRat :=
+    if sumTo S v == 0 then ((List.range S).map (fun _ => XRat.nan)).toArray else toX (normalize S v)
+  -- out-of-place model (what the guarded code, and the dense Eigen branch, compute)
+  let outModel : Array XRat :=
+    if fn == "unnorm" then toX (unnormG mm b 0 o) else if fn == "update" then normX (unnormG mm b 0 o)
+    else if fn == "partial" then toX (predictG mm b 0) else if fn == "punnorm" then toX (partialUnnormG mm b 0 o)
+    else normX (partialUnnormG mm b 0 o)
+  let zero : Vec := fun _ => 0
+  let inModel : Array XRat :=
+    if rep == "generic" then
+      if fn == "unnorm" && !guardU then toX (unnormInPlaceG mm b 0 o S)
+      else if fn == "update" && !guardU then normX (unnormInPlaceG mm b 0 o S)
+      else if fn == "partial" && !guardP then toX (predictInPlaceG mm b 0 S)
+      else outModel
+    else if rep == "sparse" then
+      if fn == "unnorm" && !guardU then toX (unnormInPlaceSp mm b 0 o)
+      else if fn == "update" && !guardU then normX zero
+      else if fn == "punnorm" && !guardPU then toX zero
+      else if fn == "pnorm" && !guardPU then normX zero
+      else outModel
+    else outModel
+  let sameX (exactCmp : Bool) (a b : Array XRat) : Bool := a.size == b.size && allLt a.size (fun i =>
+    match a.getD i .nan, b.getD i .nan with
+    | .fin p, .fin q => if exactCmp then p == q else relClose p q
+    | .nan, .nan => true
+    | x, y => x == y)
+  let normalised := fn == "update" || fn == "pnorm"
+  let ex := exact && !normalised
+  let v : Verdict := { tag := (if S ≤ 1 then "trivial " else "") ++ "inplace " ++ fn }
+  -- (relative compare: the unguarded in-place loop feeds rounded cells back into later sums, so even dyadic inputs outgrow 53 bits)
+  let v := dIf v (!(sameX false inModel inplX)) (fun _ => s!"{comp} in-place model={inModel.toList} impl={inplX.toList}")
+  let v := fIf v (!(sameX ex outX inplX)) (fun _ => s!"{comp} in_place_differs out_of_place={outX.toList} in_place={inplX.toList}")
+  return v.render
+
 /-- `overload <component> <what>` : two overloads of one helper returned different bits -/
 def overload : P String := do
   let comp ← P.tok; let what ← P.tok; P.eof
@@ -266,6 +326,7 @@ def handle (toks : List String) : String :=
     | "upd" :: rest => P.run (upd false) rest
     | "updc" :: rest => P.run (upd true) rest
     | "hist" :: rest => P.run hist rest
+    | "inplace" :: rest => P.run inplace rest
     | "overload" :: rest => P.run overload rest
     | _ => none
   r.getD "bad-op"
